@@ -6,10 +6,21 @@ P = 'EAO.Properties.C17'
 THEOREMS = S.THEOREMS_C17
 PARTIAL = S.PARTIAL_C17
 COMPONENTS = ['makeSlp vs stoch_lin_prog.make_slp (full problem incl. mapping labels and slp column)', 'SLP read-out (dispatch of future steps averaged) vs io.extract_output', 'robust value']
-RULE = ('small LP portfolios (one row per variable, several rows per variable, row-less variables, scaled asset), boundary at first/last step/off-grid, 1-4 samples; per case: make_slp correspondence, chain EEV_k <= SLP <= wait-and-see, SLP = deterministic for equal scenarios, read-out (DCF total, nodal balance, mean dispatch), robust bounds; '
+RULE = ('small LP portfolios (one row per variable, several rows per variable, row-less variables, scaled asset), boundary at first/last step/off-grid, 1-4 samples; '
+        'family "keyed": cost parameters other than `price` given as keys into the price dict (extra_costs of contracts and plants, Transport costs_time_series, start/running costs of plants) '
+        'and sample modes in which the `price` series are common to the samples while these other series differ (aux_only), the other way round (price_only), or every series picks one of a few variants per sample (variants); '
+        'family "linked" (a few per cent): a LinkedAsset (CHP with on-variables + second unit, time_back / time_forward) in the portfolio, mixed integer - evaluated like the MIP plants of the other streams (correspondence, structure, cost samples); '
+        'start_future is handed over in a form drawn with the case (zone-aware grids, incl. grids crossing a DST switch: Timestamp in the zone of the grid / naive datetime / naive date / Timestamp of the same instant in another zone; naive grids: datetime / Timestamp / date) '
+        'and on every zone-aware grid all forms of the instant must give the same SLP problem (or the same error class); '
+        'probe "zero_aux" (a handful of cases per run): a sampled extra_costs / start_costs series identically zero in some scenarios and not in others (known finding F-17m); '
+        'per case: make_slp correspondence, cost vector of create_cost_samples == c of the separately set-up problem of every sample, chain EEV_k <= SLP <= wait-and-see, SLP = deterministic for equal scenarios, '
+        'read-out (DCF total, nodal balance, mean dispatch), robust bounds - the scenarios of the chain and of the robust worst case are the separately set-up problems of the samples; '
         'non-trivial = SLP solved with a strict inequality somewhere in the chain or robust bounds; distinct by case hash')
-ASSUMPTIONS = ['values compared with tolerance 2e-6 relative']
-EXPLANATION = 'structure theorem about the model of make_slp + abstract two-stage/robust lemmas; correspondence; oracle chain on the real code'
+ASSUMPTIONS = ['values compared with tolerance 2e-6 relative',
+               'outside the probe stream zero_aux, sampled extra_costs / start_costs series are kept strictly positive (a series that vanishes on the whole window of the asset changes the number of variables of the asset: F-17m, see comp/slp.py positive_aux)',
+               'LinkedAsset: all wrapped assets live on the whole horizon']
+EXPLANATION = ('structure theorem about the model of make_slp + abstract two-stage/robust lemmas; correspondence; oracle chain on the real code, '
+               'with per-scenario problems set up one by one through Portfolio.setup_optim_problem (not taken from create_cost_samples)')
 
 
 def scenarios(seed, tier):
